@@ -6,6 +6,7 @@
 import Prov.Props.C10R
 import Prov.Props.C02
 import Prov.XmlSpec
+import Prov.Props.C06V
 
 namespace Prov.C10
 open Prov Prov.XmlSpec Prov.JsonSpec Prov.C02
@@ -30,42 +31,193 @@ theorem resolve_xsd {nsmap : List (Option String × String)} (h : StdMapX nsmap)
   have hs : splitFirstColon ("xsd:" ++ l).toList = some ("xsd".toList, l.toList) := by
     have := split_pfx "xsd" l (by decide)
     simpa [String.append_assoc] using this
+  have h0 : nsmapGet nsmap (some "xsd") = some xsdNsX := h
+  have h' : nsmapGet nsmap (some (String.ofList "xsd".toList)) = some xsdNsX := by simpa using h0
   unfold resolveQName
   rw [hs]
-  have h' : nsmapGet nsmap (some (String.ofList "xsd".toList)) = some xsdNsX := by simpa using h
-  simp [h']
+  simp only [String.ofList_toList, h0, Option.map_some, beq_self_eq_true, if_true]
 
 /-- the child the writer emits, as the reader meets it: with the in-scope declarations of its position -/
 def childAt (nsmap : List (Option String × String)) (ft : Bool) (attr : QName) (v : Value) : XNode :=
   { childNode attr (encodeXmlAttr ft attr v) with nsmap := nsmap }
 
-/-- a child carrying only xsi:type="xsd:l" and text `t` -/
-theorem spec_typed (nsmap) (hstd : StdMapX nsmap) (hints : List (String × FloatAtom)) (ft : Bool) (attr : QName) (v : Value)
-    (l t : String)
-    (henc : encodeXmlAttr ft attr v = { xsiType := some ("xsd:" ++ l), lang := none, ref := none, text := some t }) :
+/-- the writer's encodings, by value kind (the xsi:type decision web of `serialize_bundle`, for attributes that are neither
+    references nor prov:time / prov:label) -/
+theorem enc_int (ft : Bool) (attr : QName) (ha : PlainAttr attr) (n : Int) :
+    encodeXmlAttr ft attr (.int n) = { xsiType := some "xsd:int", lang := none, ref := none, text := some (toString n) } := by
+  have hlex : strStartsWithProv (toString n) = false := by
+    unfold strStartsWithProv Text.sStartsWith Text.startsWith
+    have hw := C06.int_chars n
+    cases hl : (toString n).toList with
+    | nil => simp [Text.dropPrefix?]
+    | cons c cs =>
+      have hc := hw c (by rw [hl]; simp)
+      have hp : ("prov:" : String).toList = 'p' :: "rov:".toList := rfl
+      rw [hp]
+      simp only [Text.dropPrefix?]
+      have : ('p' = c) = False := by
+        apply eq_false
+        intro e
+        subst e
+        rcases hc with h | h
+        · simp [Char.isDigit] at h
+        · cases h
+      simp [this]
+  have hlex' : strStartsWithProv n.repr = false := hlex
+  simp [encodeXmlAttr, ha.notRef, ha.notTime, ha.notLabel, Value.pyStrFull, Value.pyStr, hlex']
+
+/-- reading a child that carries only xsi:type and text -/
+theorem spec_child (nsmap : List (Option String × String)) (hints : List (String × FloatAtom)) (ft : Bool) (attr : QName)
+    (v : Value) (ty t : String)
+    (henc : encodeXmlAttr ft attr v = { xsiType := some ty, lang := none, ref := none, text := some t }) :
     readChildValue hints false false (childAt nsmap ft attr v) =
-      (let tu := xsdNsX ++ "#" ++ l
-       let xs := xsdNsX ++ "#"
-       if tu == xs ++ "QName" then (resolveQName nsmap t).map AVal.qn
-       else if tu == xs ++ "string" then some (.str t)
-       else if tu == xs ++ "anyURI" then some (.uri t)
-       else if tu == xs ++ "int" || tu == xs ++ "long" then
-         (match t.toInt? with | some n => some (.int n) | none => some (.lit t (some tu) none))
-       else if tu == xs ++ "double" then
-         (match hints.find? (fun h => h.1 == t) with
-          | some h => some (.float h.2.repr)
-          | none => some (.lit t (some tu) none))
-       else if tu == xs ++ "boolean" then
-         (let lo := t.toLower
-          if lo == "true" || lo == "1" then some (.bool true)
-          else if lo == "false" || lo == "0" then some (.bool false)
-          else some (.lit t (some tu) none))
-       else if tu == xs ++ "dateTime" then
-         (if (parseIso t).isSome then some (.dt t) else some (.lit t (some tu) none))
-       else some (.lit t (some tu) none)) := by
-  have hx := resolve_xsd hstd l
-  have e1 : ((xsiUri, "type") == (xmlNsX, "lang")) = false := by decide
-  have e2 : ((xsiUri, "type") == (xsiNsX, "type")) = true := by decide
-  simp [readChildValue, childAt, childNode, henc, attrOf, e1, e2, hx]
+      readChildValue hints false false
+        { uri := attr.ns.uri, loc := attr.loc, pfx := none, nsmap := nsmap, attrs := [((xsiUri, "type"), ty)], text := some t,
+          children := [] } := by
+  simp [childAt, childNode, henc]
+
+theorem e_lang : ((xsiUri, "type") == (xmlNsX, "lang")) = false := by decide
+theorem e_type : ((xsiUri, "type") == (xsiNsX, "type")) = true := by decide
+
+/-- **int** -/
+theorem c10x_int (nsmap) (hstd : StdMapX nsmap) (hints) (ft : Bool) (attr : QName) (ha : PlainAttr attr) (n : Int) :
+    readChildValue hints false false (childAt nsmap ft attr (.int n)) = some (absValue (.int n)) := by
+  rw [spec_child nsmap hints ft attr _ _ _ (enc_int ft attr ha n)]
+  have hx : resolveQName nsmap "xsd:int" = some (xsdNsX ++ "#" ++ "int") := by
+    have e : ("xsd:" ++ "int" : String) = "xsd:int" := by decide +kernel
+    rw [← e]; exact resolve_xsd hstd "int"
+  have hi : (toString n).toInt? = some n := Int.toInt?_repr n
+  simp [readChildValue, attrOf, e_lang, e_type, hx, hi, absValue]
+
+/-- **bool** -/
+theorem c10x_bool (nsmap) (hstd : StdMapX nsmap) (hints) (ft : Bool) (attr : QName) (ha : PlainAttr attr) (b : Bool) :
+    readChildValue hints false false (childAt nsmap ft attr (.bool b)) = some (absValue (.bool b)) := by
+  have hs : strStartsWithProv (if b then "True" else "False") = false := by cases b <;> decide
+  have henc : encodeXmlAttr ft attr (.bool b) =
+      { xsiType := some "xsd:boolean", lang := none, ref := none, text := some (if b then "True" else "False").toLower } := by
+    simp [encodeXmlAttr, ha.notRef, ha.notTime, ha.notLabel, Value.pyStrFull, Value.pyStr, hs]
+  rw [spec_child nsmap hints ft attr _ _ _ henc]
+  have hx : resolveQName nsmap "xsd:boolean" = some (xsdNsX ++ "#" ++ "boolean") := by
+    have e : ("xsd:" ++ "boolean" : String) = "xsd:boolean" := by decide +kernel
+    rw [← e]; exact resolve_xsd hstd "boolean"
+  have lt : "True".toLower.toLower = "true" := by decide +kernel
+  have lf : "False".toLower.toLower = "false" := by decide +kernel
+  cases b
+  · simp [readChildValue, attrOf, e_lang, e_type, hx, absValue, lf]
+  · simp [readChildValue, attrOf, e_lang, e_type, hx, absValue, lt]
+
+/-- **URI** (the writer's `startswith("prov:")` exception is a hypothesis: such a URI is written without a type) -/
+theorem c10x_uri (nsmap) (hstd : StdMapX nsmap) (hints) (ft : Bool) (attr : QName) (ha : PlainAttr attr) (u : String)
+    (hlex : strStartsWithProv u = false) :
+    readChildValue hints false false (childAt nsmap ft attr (.uri u)) = some (absValue (.uri u)) := by
+  have henc : encodeXmlAttr ft attr (.uri u) = { xsiType := some "xsd:anyURI", lang := none, ref := none, text := some u } := by
+    simp [encodeXmlAttr, ha.notRef, ha.notTime, ha.notLabel, Value.pyStrFull, Value.pyStr, hlex]
+  rw [spec_child nsmap hints ft attr _ _ _ henc]
+  have hx : resolveQName nsmap "xsd:anyURI" = some (xsdNsX ++ "#" ++ "anyURI") := by
+    have e : ("xsd:" ++ "anyURI" : String) = "xsd:anyURI" := by decide +kernel
+    rw [← e]; exact resolve_xsd hstd "anyURI"
+  simp [readChildValue, attrOf, e_lang, e_type, hx, absValue]
+
+/-- **float** (A-LEX: the float table holds the text) -/
+theorem c10x_float (nsmap) (hstd : StdMapX nsmap) (hints : List (String × FloatAtom)) (ft : Bool) (attr : QName)
+    (ha : PlainAttr attr) (f : FloatAtom) (hlex : strStartsWithProv f.repr = false)
+    (hh : ∃ h, hints.find? (fun h => h.1 == f.repr) = some h ∧ h.2.repr = f.repr) :
+    readChildValue hints false false (childAt nsmap ft attr (.float f)) = some (absValue (.float f)) := by
+  have henc : encodeXmlAttr ft attr (.float f) = { xsiType := some "xsd:double", lang := none, ref := none, text := some f.repr } := by
+    simp [encodeXmlAttr, ha.notRef, ha.notTime, ha.notLabel, Value.pyStrFull, Value.pyStr, hlex]
+  rw [spec_child nsmap hints ft attr _ _ _ henc]
+  have hx : resolveQName nsmap "xsd:double" = some (xsdNsX ++ "#" ++ "double") := by
+    have e : ("xsd:" ++ "double" : String) = "xsd:double" := by decide +kernel
+    rw [← e]; exact resolve_xsd hstd "double"
+  obtain ⟨h, hf, hr⟩ := hh
+  simp [readChildValue, attrOf, e_lang, e_type, hx, absValue, hf, hr]
+
+/-- **date-time** as an attribute value -/
+theorem c10x_datetime (nsmap) (hstd : StdMapX nsmap) (hints) (ft : Bool) (attr : QName) (ha : PlainAttr attr) (t : DateTime)
+    (hv : ValidDT t) (hpfx : attr.ns.pfx ≠ "prov") (hlex : strStartsWithProv (Value.dt t).pyStrFull = false) :
+    readChildValue hints false false (childAt nsmap ft attr (.dt t)) = some (absValue (.dt t)) := by
+  have hpfx' : (attr.ns.pfx != "prov") = true := by simpa using hpfx
+  have henc : encodeXmlAttr ft attr (.dt t) = { xsiType := some "xsd:dateTime", lang := none, ref := none, text := some t.iso } := by
+    simp [encodeXmlAttr, ha.notRef, ha.notTime, ha.notLabel, hlex, hpfx']
+  rw [spec_child nsmap hints ft attr _ _ _ henc]
+  have hx : resolveQName nsmap "xsd:dateTime" = some (xsdNsX ++ "#" ++ "dateTime") := by
+    have e : ("xsd:" ++ "dateTime" : String) = "xsd:dateTime" := by decide +kernel
+    rw [← e]; exact resolve_xsd hstd "dateTime"
+  have hp : (parseIso t.iso).isSome = true := by rw [parseIso_iso t hv]; rfl
+  simp [readChildValue, attrOf, e_lang, e_type, hx, absValue, hp]
+
+/-- **string**: with or without xsi:type="xsd:string" -/
+theorem c10x_str (nsmap) (hstd : StdMapX nsmap) (hints) (ft : Bool) (attr : QName) (ha : PlainAttr attr) (s : String) :
+    readChildValue hints false false (childAt nsmap ft attr (.str s)) = some (absValue (.str s)) := by
+  have hcases : encodeXmlAttr ft attr (.str s) = { xsiType := some "xsd:string", lang := none, ref := none, text := some s } ∨
+      encodeXmlAttr ft attr (.str s) = { xsiType := none, lang := none, ref := none, text := some s } := by
+    simp only [encodeXmlAttr, ha.notRef, ha.notTime, ha.notLabel, Value.pyStrFull, Value.pyStr]
+    split <;> simp_all
+  rcases hcases with henc | henc
+  · rw [spec_child nsmap hints ft attr _ _ _ henc]
+    have hx : resolveQName nsmap "xsd:string" = some (xsdNsX ++ "#" ++ "string") := by
+      have e : ("xsd:" ++ "string" : String) = "xsd:string" := by decide +kernel
+      rw [← e]; exact resolve_xsd hstd "string"
+    simp [readChildValue, attrOf, e_lang, e_type, hx, absValue]
+  · simp [readChildValue, childAt, childNode, henc, attrOf, absValue]
+
+/-- **qualified name** as the value of a non-reference attribute: xsi:type="xsd:QName", text prefix:local -/
+theorem c10x_qname (nsmap) (hstd : StdMapX nsmap) (hints) (ft : Bool) (attr : QName) (ha : PlainAttr attr) (q : QName)
+    (hres : resolveQName nsmap q.print = some q.uri) :
+    readChildValue hints false false (childAt nsmap ft attr (.qn q)) = some (absValue (.qn q)) := by
+  have henc : encodeXmlAttr ft attr (.qn q) = { xsiType := some "xsd:QName", lang := none, ref := none, text := some q.print } := by
+    simp [encodeXmlAttr, ha.notRef, Value.pyStrFull, Value.pyStr]
+  rw [spec_child nsmap hints ft attr _ _ _ henc]
+  have hx : resolveQName nsmap "xsd:QName" = some (xsdNsX ++ "#" ++ "QName") := by
+    have e : ("xsd:" ++ "QName" : String) = "xsd:QName" := by decide +kernel
+    rw [← e]; exact resolve_xsd hstd "QName"
+  simp [readChildValue, attrOf, e_lang, e_type, hx, absValue, hres]
+
+/-- **language-tagged string**: xml:lang, no xsi:type -/
+theorem c10x_lang (nsmap) (hints) (ft : Bool) (attr : QName) (hnr : isRefAttr attr = false) (v l : String) :
+    readChildValue hints false false (childAt nsmap ft attr (.lit v (some (provQ "InternationalizedString")) (some l))) =
+      some (absValue (.lit v (some (provQ "InternationalizedString")) (some l))) := by
+  have hu : ((provQ "InternationalizedString").uri == provUri ++ "InternationalizedString") = true := by decide
+  have henc : encodeXmlAttr ft attr (.lit v (some (provQ "InternationalizedString")) (some l)) =
+      { xsiType := none, lang := some l, ref := none, text := some v } := by
+    simp [encodeXmlAttr, hnr, hu, Value.pyStrFull]
+  have e3 : ((xmlUri, "lang") == (xmlNsX, "lang")) = true := by decide
+  simp [readChildValue, childAt, childNode, henc, attrOf, e3, absValue]
+  decide
+
+/-- **literal of a foreign datatype**: xsi:type="prefix:local" as the datatype prints -/
+theorem c10x_typed (nsmap) (hints) (ft : Bool) (attr : QName) (hnr : isRefAttr attr = false) (v : String) (t : QName)
+    (hnis : (t.uri == provUri ++ "InternationalizedString") = false)
+    (hres : resolveQName nsmap (t.ns.pfx ++ ":" ++ t.loc) = some t.uri)
+    (hf : t.uri ≠ xsdNsX ++ "#" ++ "QName" ∧ t.uri ≠ xsdNsX ++ "#" ++ "string" ∧ t.uri ≠ xsdNsX ++ "#" ++ "anyURI" ∧
+      t.uri ≠ xsdNsX ++ "#" ++ "int" ∧ t.uri ≠ xsdNsX ++ "#" ++ "long" ∧ t.uri ≠ xsdNsX ++ "#" ++ "double" ∧
+      t.uri ≠ xsdNsX ++ "#" ++ "boolean" ∧ t.uri ≠ xsdNsX ++ "#" ++ "dateTime") :
+    readChildValue hints false false (childAt nsmap ft attr (.lit v (some t) none)) = some (absValue (.lit v (some t) none)) := by
+  have henc : encodeXmlAttr ft attr (.lit v (some t) none) =
+      { xsiType := some (t.ns.pfx ++ ":" ++ t.loc), lang := none, ref := none, text := some v } := by
+    simp [encodeXmlAttr, hnr, hnis, Value.pyStrFull]
+  rw [spec_child nsmap hints ft attr _ _ _ henc]
+  obtain ⟨f1, f2, f3, f4, f5, f6, f7, f8⟩ := hf
+  simp [readChildValue, attrOf, e_lang, e_type, hres, absValue, f1, f2, f3, f4, f5, f6, f7, f8]
+
+/-- **reference child** (prov:entity, prov:activity, … of the record's formal sequence): prov:ref="prefix:local" -/
+theorem c10x_ref (nsmap) (hints) (ft : Bool) (attr : QName) (href : isRefAttr attr = true) (q : QName) (hne : q.print ≠ "")
+    (hres : resolveQName nsmap q.print = some q.uri) :
+    readChildValue hints true false (childAt nsmap ft attr (.qn q)) = some (absValue (.qn q)) := by
+  have hne' : (q.print != "") = true := by simpa using hne
+  have henc : encodeXmlAttr ft attr (.qn q) = { xsiType := none, lang := none, ref := some q.print, text := none } := by
+    simp [encodeXmlAttr, href, hne', Value.pyStrFull, Value.pyStr]
+  have e4 : ((provUri, "ref") == (provNsX, "ref")) = true := by decide
+  simp [readChildValue, childAt, childNode, henc, attrOf, e4, hres, absValue]
+
+theorem enc_dt_text (ft : Bool) (attr : QName) (hnr : isRefAttr attr = false) (t : DateTime) :
+    (encodeXmlAttr ft attr (.dt t)).text = some t.iso := by
+  simp only [encodeXmlAttr, hnr]
+  split <;> (try split) <;> simp_all
+
+/-- **time child** (prov:time, prov:startTime, prov:endTime): the text is the date-time -/
+theorem c10x_time (nsmap) (hints) (ft : Bool) (attr : QName) (hnr : isRefAttr attr = false) (t : DateTime) :
+    readChildValue hints false true (childAt nsmap ft attr (.dt t)) = some (absValue (.dt t)) := by
+  simp [readChildValue, childAt, childNode, enc_dt_text ft attr hnr t, absValue]
 
 end Prov.C10
